@@ -226,18 +226,21 @@ REQ = re.compile(r"^\s*(?:From\s+(\S+)\s+)?Require\s+(?:Import\s+|Export\s+)?([^
 
 
 def requires(path):
-    """TskVerif modules required by a .v file (regex over Require lines)."""
+    """TskVerif modules required by a .v file (Require sentences end at '.' + whitespace)."""
     res = []
-    txt = strip_coq_comments(open(path).read())
-    for stmt in re.findall(r"(?:From\s+\S+\s+)?Require\s+(?:Import\s+|Export\s+)?[^.]*(?:\.[A-Za-z_][\w']*)*\s*\.(?=\s)", txt):
-        m = re.match(r"(?:From\s+(\S+)\s+)?Require\s+(?:Import\s+|Export\s+)?(.*)\.$", stmt.strip(), re.S)
-        if not m:
-            continue
+    txt = strip_coq_comments(open(path).read()) + "\n"
+    for m in re.finditer(r"(?:\bFrom\s+(\S+)\s+)?\bRequire\s+(?:Import\s+|Export\s+)?(.*?)\.(?=\s)", txt, re.S):
         frm, mods = m.group(1), m.group(2).split()
         for mod in mods:
-            full = mod if mod.startswith(NS + ".") else ((frm + "." + mod) if frm else mod)
-            if full.startswith(NS + ".") and os.path.exists(path_of(full)):
-                res.append(full)
+            cands = [mod]
+            if frm:
+                cands.append(frm + "." + mod)
+            cands.append(NS + "." + mod)
+            for full in cands:
+                if full.startswith(NS + ".") and os.path.exists(path_of(full)):
+                    if full not in res:
+                        res.append(full)
+                    break
     return res
 
 
